@@ -31,7 +31,23 @@ def rule_sexp(case):
              ('args',) + tuple(case['args']),
              ('base', r['tag']) + tuple(r['cond']),
              ('kids',) + tuple(kid(k, c) for k, c in r['kids'])]
+    nargs = node_args(case)
+    if nargs:
+        parts.append(('nargs',) + tuple((tag,) + tuple(a) for tag, a in sorted(nargs.items())))
     return sexp(tuple(parts))
+
+
+def node_args(case):
+    """{tag: argument expressions} of the nodes that carry their own (branches that introduce variables)."""
+    out = {}
+
+    def go(n):
+        if 'args' in n:
+            out[n['tag']] = n['args']
+        for _, ch in n['kids']:
+            go(ch)
+    go(case['rule'])
+    return out
 
 
 def rule_shape(r):
@@ -41,31 +57,65 @@ def rule_shape(r):
 class RuleOracle(surface.Oracle):
     """Recursive ripple-down-rules reference interpreter on the surface program."""
 
+    def cond_vars(self, node):
+        return sorted(set().union(*[surface.cond_vars(c) for c in node['cond']]))
+
+    def exts(self, node, asg):
+        """The extensions of `asg` by the variables the node's conditions introduce that satisfy them."""
+        new = [v for v in self.cond_vars(node) if v not in asg]
+        out = []
+        for combo in itertools.product(*[self.dom(v) for v in new]):
+            a = dict(asg)
+            a.update(zip(new, combo))
+            if all(self.holds(c, a) for c in node['cond']):
+                out.append(a)
+        return out
+
     def fire(self, node, asg):
-        if all(self.holds(c, asg) for c in node['cond']):
-            for kind, ch in node['kids']:
-                if kind == 'ref':
-                    x = self.fire(ch, asg)
-                    if x is not None:
-                        return x
-            return node['tag']
+        """Ripple-down rules over partial bindings: [(tag, binding)]."""
+        exts = self.exts(node, asg)
+        if exts:
+            out = []
+            for a in exts:
+                for kind, ch in node['kids']:
+                    if kind == 'ref':
+                        x = self.fire(ch, a)
+                        if x:
+                            out.extend(x)
+                            break
+                else:
+                    out.append((node['tag'], a))
+            return out
         for kind, ch in node['kids']:
             if kind == 'alt':
                 x = self.fire(ch, asg)
-                if x is not None:
+                if x:
                     return x
-        return None
+        return []
 
     def rule_rows(self):
         case = self.case
-        vids = [v[0] for v in case['vars']]
+        nargs = node_args(case)
+        # base variables: those of the base conditions and of the default argument expressions (a rule head may
+        # mention variables its body leaves unconstrained)
+        base = set(self.cond_vars(case['rule'])).union(*[surface.term_vars(t) for t in case['args']])
+        vids = [v[0] for v in case['vars'] if v[0] in base]
         out = []
         for combo in itertools.product(*[self.dom(v) for v in vids]):
             asg = dict(zip(vids, combo))
-            tag = self.fire(case['rule'], asg)
-            if tag is not None:
-                out.append('%d:%s' % (tag, surface.render_row([self.term_val(t, asg) for t in case['args']])))
+            if all(self.holds(c, asg) for c in case['rule']['cond']):
+                hits = self.fire(case['rule'], asg)
+            else:
+                hits = []
+                for kind, ch in case['rule']['kids']:
+                    if kind == 'alt':
+                        hits = self.fire(ch, asg)
+                        if hits:
+                            break
+            for tag, a in hits:
+                out.append('%d:%s' % (tag, surface.render_row([self.term_val(t, a) for t in nargs.get(tag, case['args'])])))
         return out
+
 
 
 def rule_impl(job):
@@ -99,10 +149,12 @@ def rule_impl(job):
                 f0: object = None
                 f1: object = None
                 f2: object = None
+            nargs_ = node_args(case)
+
             def conclusion(tag):
                 # keyword order matters to the construction: the constant tag is written first or last
                 kw = {} if case.get('tag_last') else {'tag': tag}
-                for i, t in enumerate(case['args']):
+                for i, t in enumerate(nargs_.get(tag, case['args'])):
                     kw[f'f{i}'] = b.term(t)
                 kw['tag'] = tag
                 return Vw(**kw)
@@ -146,18 +198,21 @@ def rule_impl(job):
                     except StopIteration:
                         pass
                     it.close()
+            built = []
+
+            def render(v):
+                if type(v) is not Vw:
+                    return 'NOT-AN-INSTANCE:' + type(v).__name__
+                vals = [getattr(v, f'f{i}') for i in range(len(nargs_.get(v.tag, case['args'])))]
+                return '%d:%s' % (v.tag, surface.render_row([b.encode(x) for x in vals]))
             for _ in range(opts.get('evals', 1)):
+                known_ = {id(o) for o in _instances(Variable, Vw)}
                 with ctx():
                     made = list(q.evaluate())
-                rows = []
-                for v in made:
-                    if type(v) is not Vw:
-                        rows.append('NOT-AN-INSTANCE:' + type(v).__name__)
-                        continue
-                    vals = [getattr(v, f'f{i}') for i in range(len(case['args']))]
-                    rows.append('%d:%s' % (v.tag, surface.render_row([b.encode(x) for x in vals])))
-                outs.append(rows)
-            res['impl'][key] = {'outs': outs}
+                outs.append([render(v) for v in made])
+                # every instance CONSTRUCTED by this evaluation (registered with the class), yielded or not
+                built.append([render(o) for o in _instances(Variable, Vw) if id(o) not in known_])
+            res['impl'][key] = {'outs': outs, 'built': built}
         except Exception as e:
             res['impl'][key] = {'exc': f'{type(e).__name__}: {str(e)[:200]}'}
         finally:
@@ -169,6 +224,14 @@ def rule_impl(job):
 def _registered(Variable, cls):
     c = Variable._cache_.get(cls)
     return list(c.flat_cache) if c is not None else []
+
+
+def _instances(Variable, cls):
+    out = []
+    for e in _registered(Variable, cls):
+        v = e[1] if isinstance(e, tuple) else e
+        out.append(getattr(v, 'value', v))
+    return out
 
 
 def show_rule_tree(b, q):
@@ -235,6 +298,65 @@ def gen_rule(rng, g, var_ids, depth, kinds, counter, bound_ctx=False):
     return node
 
 
+def add_widening_refinement(rng, g, rule, x, z, depth=2):
+    """Insert ONE refinement that introduces a further variable `z` through a join condition into a rule tree over the
+    single base variable `x`; its conclusion, and every conclusion below it, is made of (x, z), the others of x only (the
+    Drawer / Wardrobe shape of the library's documentation).  The block is written as the FIRST refinement of its parent,
+    on a path on which every refinement is the first refinement of its parent, and holds refinements only: elsewhere the
+    outputs of the widened branch (one per value of z) would pass through blocks that do not mention z, and whether
+    those fire once per base match or once per value of z is left open by C12."""
+    def atoms(v):
+        g.var_ids = [v]
+        a = g.atom()
+        g.var_ids = [x]
+        return a
+
+    def eligible(node, ok=True):
+        out = [node] if ok else []
+        first_ref = True
+        for kind, ch in node['kids']:
+            if kind == 'ref':
+                out += eligible(ch, ok and first_ref)
+                first_ref = False
+            else:
+                out += eligible(ch, ok)
+        return out
+
+    def sub(d):
+        cond = [atoms(rng.choice((x, z)))] + ([atoms(rng.choice((x, z)))] if rng.random() < 0.3 else [])
+        node = {'tag': None, 'cond': cond, 'kids': [], 'args': [('var', x), ('var', z)]}
+        if d > 0:
+            for _ in range(rng.choice((0, 1, 1, 2))):
+                node['kids'].append(('ref', sub(d - 1)))
+        return node
+    parent = rng.choice(eligible(rule))
+    join = rng.choice([('cmp', 'eq', ('attr', 'ref', ('var', z)), ('var', x)),
+                       ('cmp', 'eq', ('var', x), ('attr', 'ref', ('var', z))),
+                       ('cmp', rng.choice(('eq', 'le', 'ne')), ('attr', 'a', ('var', z)), ('attr', 'a', ('var', x))),
+                       ('cmp', rng.choice(('eq', 'ge')), ('attr', 'a', ('var', x)), ('attr', 'b', ('var', z)))])
+    cond = [join] + ([atoms(z)] if rng.random() < 0.4 else []) + ([atoms(x)] if rng.random() < 0.3 else [])
+    rng.shuffle(cond)
+    w = {'tag': None, 'cond': cond, 'kids': [], 'args': [('var', x), ('var', z)]}
+    for _ in range(rng.choice((0, 0, 1, 2)) if depth > 0 else 0):
+        w['kids'].append(('ref', sub(depth - 1)))
+    refs = [i for i, (k, _) in enumerate(parent['kids']) if k == 'ref']
+    parent['kids'].insert(rng.randint(0, refs[0]) if refs else rng.randint(0, len(parent['kids'])), ('ref', w))
+    # tags in written (pre-)order, like the other trees
+    counter = [0]
+
+    def renumber(node):
+        node['tag'] = counter[0]
+        counter[0] += 1
+        for _, ch in node['kids']:
+            renumber(ch)
+    renumber(rule)
+    return rule
+
+
+def has_widening(rule):
+    return 'args' in rule or any(has_widening(ch) for _, ch in rule['kids'])
+
+
 def base_dataset(rng, nv, n_objs=(2, 4)):
     cfg = gen.Cfg(n_vars=(nv, nv), n_objs=n_objs, depth=1, preds=False, calls=True, membership=False,
                   negation=True, subclasses=0.0, empty_domain=0.0, int_range=(0, 2), share_domain=0.3)
@@ -278,6 +400,21 @@ def judge_rules(report, cases, results, lines, findings, pid, nontrivial, check_
                 if obs == want:
                     if obs != model:
                         report.corr_disagreements.append({'case': rule_sexp(case), 'model': model, 'impl': obs})
+                    # the instances CONSTRUCTED by this evaluation (yielded or not): none that the reference does not
+                    # prescribe, none more often than prescribed (fewer is possible: instances re-used from a cache)
+                    built = (cfg.get('built') or [None] * (ev + 1))[ev]
+                    if built is not None:
+                        import collections
+                        cb, cw = collections.Counter(built), collections.Counter(want)
+                        extra = sorted(k for k in cb if cb[k] > cw[k])
+                        if extra:
+                            what = (f'instances were constructed for conclusions the ripple-down-rules reference does not '
+                                    f'prescribe ({key}, evaluation {ev + 1})')
+                            report.violations.append((what, {'what': what, 'case': case, 'case_sexp': rule_sexp(case),
+                                                             'expected': want, 'observed': obs, 'constructed': sorted(built),
+                                                             'not_prescribed': extra, 'shape': rule_shape(case['rule'])}))
+                            break
+                        report.count('constructed_instances_compared')
                     continue
                 if key.startswith('on') and 'C05-F4' in fnd and 'a' in rule_shape(case['rule']) and \
                         all(sorted(r) == want for r in res['impl'].get(key.replace('on', 'off', 1), {'outs': []})['outs']):
@@ -302,9 +439,30 @@ def c12(report, rng, tier, findings):
         ids = [v[0] for v in base['vars']]
         g = gen.CondGen(rng, cfg, ids)
         depth = rng.choice((1, 2, 2, 3)) if tier == 'quick' else rng.choice((1, 2, 3, 3))
+        if rng.random() < 0.3:
+            # conclusions over DIFFERENT variable sets: one refinement introduces a further variable by a join condition
+            cfg1, base1 = base_dataset(rng, 1, n_objs=(3, 5))
+            x = base1['vars'][0][0]
+            z = x + 1
+            g1 = gen.CondGen(rng, cfg1, [x])
+            rule = gen_rule(rng, g1, [x], rng.choice((1, 2, 2)), ('ref', 'alt'), [0])
+            rule = add_widening_refinement(rng, g1, rule, x, z)
+            all_objs = [('o', j) for j, _, _ in base1['objs']]
+            cases.append({'id': f'r{i}', 'classes': base1['classes'], 'objs': base1['objs'],
+                          'vars': [base1['vars'][0], (z, base1['vars'][0][1], all_objs)],
+                          'args': [('var', x)], 'rule': rule, 'widening': True})
+            report.count('a_refinement_introduces_a_variable')
+            if rng.random() < 0.3:
+                cases[-1]['pre_take'] = rng.randint(1, 3)
+                report.count('after_an_abandoned_evaluation')
+            continue
         rule = gen_rule(rng, g, ids, depth, rng.choice((('ref',), ('alt',), ('ref', 'alt'), ('ref', 'alt'))), [0])
         cases.append({'id': f'r{i}', 'classes': base['classes'], 'objs': base['objs'], 'vars': base['vars'],
                       'args': [('var', v) for v in ids], 'rule': rule})
+        if rng.random() < 0.3:
+            # an evaluation of the same rule tree abandoned after 1-3 instances comes first
+            cases[-1]['pre_take'] = rng.randint(1, 3)
+            report.count('after_an_abandoned_evaluation')
     report.rule = ("random rule trees to depth 3 built with Add conclusions, refinement and alternative (0-3 blocks per node in any order; "
                    "refinements under the base, under refinements and under alternatives; alternatives under refinements; "
                    "chains of alternatives), conjunctive conditions (25%: a disjunction of two conjunctions) over 1-2 variables - mentioning every variable on the root's "
@@ -318,7 +476,7 @@ def c12(report, rng, tier, findings):
     results = pmap(rule_impl, [(c, {'caching': (False, True), 'evals': 2}) for c in cases])
     lines = run_driver([rule_sexp(c) for c in cases])
     judge_rules(report, cases, results, lines, findings, 'C12', nontriv)
-    return ['EqlModel.Props.C12', 'EqlModel.Lemmas.RuleBuild'], [
+    return ['EqlModel.Props.C12', 'EqlModel.Lemmas.RuleBuild', 'EqlModel.RulesExt'], [
         "branch-closed conditions: each branch's conditions mention the variables its conclusion uses",
         "one Add conclusion per branch; next_rule is outside the property",
         "the construction (refinement/alternative attachment) is transliterated (refineAt/altAt/buildKids) and proved to yield "
